@@ -185,6 +185,19 @@ def run_batch(prop, tier, base_seed, budget_s=None):
         o = simlib.run_seed(v, s, prop, tier)
         o["_variant"] = v
         o["_seed"] = s
+        if str(o.get("class", "")).startswith("crash-"):
+            # the process died before it could report: recover what the known-findings matcher
+            # needs (plan, variant, which spaces the program allocates into) from the generated spec
+            try:
+                sp = simlib.dump_spec(v, s, prop, tier)
+                o["plan"] = sp["cfg"]["plan"]
+                o["variant"] = v
+                o["shape"] = sp.get("shape")
+                nm = sum(1 for p in sp["programs"] for op in p if op.get("op") == "Alloc" and op.get("sem") == 6)
+                o["counters"] = {"alloc_in_nonmoving": nm, "kf_probe": 1 if sp["cfg"].get("kf_probe") else 0}
+                o["sched"] = {}
+            except Exception:
+                pass
         return o
 
     with cf.ThreadPoolExecutor(max_workers=NPROC) as ex:
